@@ -63,7 +63,7 @@ NEEDS = {
  "C03e": ("C03", "two live snapshots, key overwritten between them, table compaction (smallest snapshot read from snapshots.newest()) - the idea of C07b again"),
  "C04e": ("C04", "iterator created between a memtable rotation and the installation of the flushed table (new_iterator merges the active memtable twice and the immutable memtable not at all)"),
  "C05e": ("C05", "= C07d: seek-triggered level-0 compaction takes one file only (found again for C05: successive reads of a key go backwards)"),
- "C06e": ("C06", "(see notes.md of the change)"),
+ "C06e": ("C06", "(lost with the scratch worktrees; not re-created)"),
  "C07e": ("C07", "= C03: upper-bound file search by user key only (found again for C07)"),
  "C08e": ("C08", "group commit whose WAL append fails: followers are told Ok (Writer::set_operation_completed fills in a default Ok result, set_operation_result keeps the first one)"),
  "C09e": ("C09", "any iterator step over an entry of 2 MiB or more (read-sampling countdown replaced instead of extended: the loop never ends)"),
@@ -75,6 +75,25 @@ NEEDS = {
  "C15e": ("C15", "damaged block in a compaction input whose preceding entry closed an output table, all other inputs exhausted (compact_tables no longer asks the merging iterator for its error)"),
  "C16e": ("C16", "crash tearing the write of the manifest name into the CURRENT temp file, recovery, reopen (temp file opened for appending: CURRENT gets a garbled name)"),
  "C17e": ("C17", "destroy_database suspended between dropping the lock and removing the root directory, an open in that window (remove_dir_all instead of remove_dir: the new owner's files and LOCK are wiped)"),
+ # ---- fifth wave (each agent was told about all earlier changes for its property); wave 4 was
+ # re-created from its descriptions after a sandbox restore had removed the scratch worktrees
+ "C01f": ("C01", "= C07d / C05e: seek-triggered level-0 compaction starts from one file only (found a third time)"),
+ "C02f": ("C02", "= C16e: CURRENT's temp file opened for appending; a crash between the temp write and the rename leaves a complete temp file that the next switch appends to (found again for C02)"),
+ "C03f": ("C03", "a snapshot or long-lived iterator, then a delete of a key that was live at that point, then a BACKWARD walk over the key (find_prev_client_entry records the operation type of records newer than the snapshot; some shapes panic on an unwrap instead)"),
+ "C04f": ("C04", "level >= 1 with two files, seek to (k, s) below the largest key (k, s_new) of a non-last file - through an old snapshot or on a direction reversal (FilesEntryIterator::seek picks the file with MAX sequence and no longer skips empty files forward; two cooperating edits)"),
+ "C05f": ("C05", "reader capturing its view while a writer is inside its unlocked section (sequence published BEFORE the WAL append / memtable insert) - the idea of C06 / C03b again"),
+ "C06f": ("C06", "= C14b / C03c / C13c: table builder tells the filter about a user key only when it changes (fourth independent find)"),
+ "C07f": ("C07", "= C08f: a level-0 compaction input whose table cannot be opened (one transient open failure, table not in the table cache) is skipped; the edit still deletes it"),
+ "C08f": ("C08", "one transient open-for-read failure of a level-0 compaction input that is not in the table cache (reopen, tiny caches): make_merging_iterator skips the file, the version edit still removes it - acknowledged data vanishes without any error"),
+ "C09f": ("C09", "manual compaction of a level >= 1 whose first table in the range is already max_file_size or larger (compact_range truncates the input list to zero files; the worker trips an assertion and dies)"),
+ "C10f": ("C10", "~100 freshly positioned iterators on a key held in two files of different levels, nothing below the deeper one (record_read_sample charges the first file with the level of the second: trivial move from the wrong level, the file is in two levels)"),
+ "C11f": ("C11", "crash image with two logs, the newest intact and small, reopen with log reuse (open no longer records the re-adopted log as the current one in the new manifest snapshot: the older, already saved log is kept and replayed again at every reopen)"),
+ "C12f": ("C12", "multi-block record whose last fragment ends exactly on a block boundary (continuation fragment typed Middle when it fills the block: the record has no Last fragment and is never returned)"),
+ "C13f": ("C13", "table iterator that has moved inside the FIRST data block, then seek_to_first (the block iterator is no longer re-positioned when the block handle is unchanged)"),
+ "C14f": ("C14", "the empty user key alone in a first data block that ends at or beyond offset 2048 (filter block builder keeps pending keys in one flat byte vector; 'no keys pending' became 'pending keys have zero bytes')"),
+ "C15f": ("C15", "an iterator positioned onto a damaged data block twice (the block handle is stored before the block is read: the second positioning takes the 'already loaded' shortcut and the scan silently goes on)"),
+ "C16f": ("C16", "crash while two logs are live and the newest holds no complete record (last sequence taken from the log replayed last: sequence numbers go backwards)"),
+ "C17f": ("C17", "an open that has opened LOCK before destroy unlinks it and locks it after destroy released it (lock_file's 'is the path still the locked inode' check accepts a missing path); statistical demonstration"),
 }
 
 def results():
